@@ -52,7 +52,8 @@ func runR09_8(c *Ctx, r *R) {
 	for _, rel := range []string{"mpx", "rpc"} {
 		// a mutex of a pooled call/channel state that is left locked travels to the next user of the state (C18,
 		// and for rpc the next call hangs: C04); the client/server mutexes of mpx are C19's
-		props := []string{"C09", "C18", "C19"}
+		// ... and an unlock of a mutex that is not held is a fatal error that takes the server process down (C11)
+		props := []string{"C09", "C18", "C19", "C11"}
 		if rel == "rpc" {
 			props = []string{"C09", "C18", "C04"}
 		}
